@@ -133,18 +133,15 @@ theorem panos_poll_block :
   · exact J_of_nonrun_exec _ _ env s hj hm
 
 
-/-- key generation: request, status, well-formed `success`, key present -/
+/-- key generation (`getAPIKey`): request, status, well-formed `success`, key present -/
 theorem panos_apikey_block :
-    ∀ env s, J (badChecked .panos) s →
-      J (badChecked .panos) (exec (
-        panosHttpGet .login (.lit "keygen") ;;
-        .ite .err "err != nil" (.ret .err ["", "_"]) .skip ;;
-        panosParseResponse ;;
-        .ite .err "" (.ret .keep []) .skip ;;
-        .ite (.not (.flag .keyOk)) "" (.ret .err []) (.ret .nil [])) env s) := by
+    ∀ env s, J (badChecked .panos) s → J (badChecked .panos) (exec panosGetAPIKeyBody env s) := by
   intro env s hj
   by_cases hm : s.mode = .run
   · have h1 := panosHttpGet_spec _ panosRep .login (.lit "keygen") env s hj hm
+    unfold panosGetAPIKeyBody
+    rw [exec_seq, exec_ite _ _ _ _ _ _ hm]
+    simp only [evalCond, Bool.false_eq_true, if_false, exec_skip]
     rw [exec_seq]
     generalize exec (panosHttpGet .login (.lit "keygen")) env s = s1 at h1
     cases h1 with
@@ -166,17 +163,13 @@ theorem panos_apikey_block :
       exact j_ret_err _ hs .ret (by decide)
   · exact J_of_nonrun_exec _ _ env s hj hm
 
+/-- `checkHA`: request, status, well-formed `success`; then the HA state decides -/
 theorem panos_checkha_block :
-    ∀ env s, J (badChecked .panos) s →
-      J (badChecked .panos) (exec (
-        panosHttpPrefixGetLog .login (.lit "show ha") ;;
-        .ite .err "err != nil" (.ret .err ["false"]) .skip ;;
-        panosParseResponse ;;
-        .ite .err "err != nil" (.ret .err ["false"]) .skip ;;
-        .ite (.not (.flag .haActive)) "" (.ret .err ["false"]) (.ret .nil ["true"])) env s) := by
+    ∀ env s, J (badChecked .panos) s → J (badChecked .panos) (exec panosCheckHABody env s) := by
   intro env s hj
   by_cases hm : s.mode = .run
   · have h1 := panosHttpPrefixGetLog_spec _ panosRep .login (.lit "show ha") env s hj hm
+    unfold panosCheckHABody
     rw [exec_seq]
     generalize exec (panosHttpPrefixGetLog .login (.lit "show ha")) env s = s1 at h1
     cases h1 with
@@ -186,12 +179,12 @@ theorem panos_checkha_block :
       | true =>
         have hc := h.clean _ (panos_good .login (by simp) _ ⟨hk.1, hk.2, hp⟩)
         by_cases hha : Flag.haActive ∈ s1.last.flags
-        · simp [panosParseResponse, exec, hm1, evalCond, he, hp, hha]
+        · simp [panosParseResponse, op, exec, hm1, evalCond, he, hp, hha]
           exact j_clean_any _ hc _ _
-        · simp [panosParseResponse, exec, hm1, evalCond, he, hp, hha]
+        · simp [panosParseResponse, op, exec, hm1, evalCond, he, hp, hha]
           exact j_clean_any _ hc _ _
       | false =>
-        simp [panosParseResponse, exec, hm1, evalCond, he, hp]
+        simp [panosParseResponse, op, exec, hm1, evalCond, he, hp]
         exact j_ret_err _ h.safe .ret (by decide)
     | err hs he hm1 =>
       simp [exec, hm1, evalCond, he]
@@ -234,9 +227,9 @@ theorem panos_config_block :
 
 /-! ## NSX -/
 
-theorem nsxSendRequest_spec (ρ : Role) (hρ : ρ = .change ∨ ρ = .read) (t : Txt) (env : Env) (s : St)
+theorem nsxSendRequest_spec (ρ : Role) (hρ : ρ = .change ∨ ρ = .read) (t : Txt) (lits : List String) (env : Env) (s : St)
     (hj : J (badChecked .nsx) s) (hm : s.mode = .run) :
-    HttpOut (badChecked .nsx) ρ (fun r => r.arr = .full ∧ r.status200 = true) (exec (nsxSendRequest ρ t) env s) := by
+    HttpOut (badChecked .nsx) ρ (fun r => r.arr = .full ∧ r.status200 = true) (exec (nsxSendRequest ρ t lits) env s) := by
   have hrep : (ρ != .change) = true → ∀ r : Reply, r.arr = .closed → badChecked .nsx ρ r = false := by
     intro hne r h
     rcases hρ with rfl | rfl
@@ -277,22 +270,22 @@ theorem nsx_good_read (r : Reply) (h : r.arr = .full ∧ r.status200 = true) (hp
 theorem nsx_change_block :
     ∀ env s, J (badChecked .nsx) s →
       J (badChecked .nsx) (exec (nsxSendRequest .change .cur ;; .ite .err "err != nil" (.ret .keep ["err"]) .skip) env s) :=
-  http_then_check _ _ .change _ (nsxSendRequest_spec .change (Or.inl rfl) .cur)
+  http_then_check _ _ .change _ (nsxSendRequest_spec .change (Or.inl rfl) .cur _)
     (fun r h => nsx_good .change (Or.inl rfl) r h) _ _ (by decide) _
 
 /-- a GET whose JSON body is decoded; `tail` is what follows a successful decode -/
-theorem nsx_read_block (t : Txt) (lits1 lits2 : List String) (tail : Sess) (htail : tail = .skip ∨ ∃ l, tail = .ret .nil l) :
+theorem nsx_read_block (t : Txt) (lits lits1 lits2 : List String) (tail : Sess) (htail : tail = .skip ∨ ∃ l, tail = .ret .nil l) :
     ∀ env s, J (badChecked .nsx) s →
       J (badChecked .nsx) (exec (
-        nsxSendRequest .read t ;;
+        nsxSendRequest .read t lits ;;
         .ite .err "err != nil" (.ret .keep lits1) .skip ;;
         jsonUnmarshal ;;
         .ite .err "err != nil" (.ret .err lits2) tail) env s) := by
   intro env s hj
   by_cases hm : s.mode = .run
-  · have h1 := nsxSendRequest_spec .read (Or.inr rfl) t env s hj hm
+  · have h1 := nsxSendRequest_spec .read (Or.inr rfl) t lits env s hj hm
     rw [exec_seq]
-    generalize exec (nsxSendRequest .read t) env s = s1 at h1
+    generalize exec (nsxSendRequest .read t lits) env s = s1 at h1
     cases h1 with
     | ok h hk he =>
       have hm1 := h.mode
@@ -316,8 +309,8 @@ theorem nsx_login_block :
     ∀ env s, J (badChecked .nsx) s →
       J (badChecked .nsx) (exec (
         .roundTrip .login (.lit "session create") false ;;
-        .ite .err "err != nil" (.mark .logWarn ;; .ret .err ["err"]) .skip ;;
-        .ite .not200 "resp.StatusCode != http.StatusOK" (.mark .logWarn ;; .ret .err ["_"]) .skip) env s) := by
+        .ite .err "err != nil" (.ret .keep ["err"]) .skip ;;
+        .ite .not200 "resp.StatusCode != http.StatusOK" (.ret .err ["_"]) .skip) env s) := by
   intro env s hj
   by_cases hm : s.mode = .run
   · have h1 := roundTrip_spec (badChecked .nsx) .login (.lit "session create") false (by simp) env s hj hm
@@ -332,14 +325,10 @@ theorem nsx_login_block :
         exact (jv_of_clean _ (h.clean _ (nsx_good .login (Or.inr rfl) _ ⟨harr, h200⟩))).toJ
       | false =>
         simp [exec, hm1, evalCond, he, h200]
-        refine ⟨?_, by simp, by simp, fun _ _ => rfl⟩
-        show safe (badChecked .nsx) (s1.tr ++ [Ev.logWarn]) = true
-        rw [safe_append_quiet _ _ _ (by simp [isChangeOrSave])]; exact h.safe
+        exact j_ret_err _ h.safe .ret (by decide)
     | err hs he hm1 =>
       simp [exec, hm1, evalCond, he]
-      refine ⟨?_, by simp, by simp, fun _ _ => rfl⟩
-      show safe (badChecked .nsx) (s1.tr ++ [Ev.logWarn]) = true
-      rw [safe_append_quiet _ _ _ (by simp [isChangeOrSave])]; exact hs
+      exact j_ret_err _ hs .ret (by decide)
   · exact J_of_nonrun_exec _ _ env s hj hm
 
 end NA.C09
